@@ -345,8 +345,11 @@ func exchange(fatalf func(string, ...any), s *respScript, method string) {
 			bad("backend sent an unusable response head: client got %d, want 502 or 500", rec.Status())
 		}
 	case "body-close", "body-rst":
-		if s.fault == "body-rst" && rec.Status() == http.StatusBadGateway && len(rec.Body()) <= len("Bad Gateway") {
-			break // the reset overtook the response head in the proxy's receive queue: indistinguishable from a reset before any byte
+		if s.fault == "body-rst" && resetOvertook(rec.Status(), rec.Body()) && panicked == nil {
+			// a TCP reset discards what is still unread in the proxy's receive queue: the proxy saw a
+			// reset before any byte (502) or in the middle of the head (unusable head: 502 or 500)
+			vstat.Count("reset_overtook_head", 1)
+			break
 		}
 		if rec.Status() != s.status {
 			bad("client got status %d, backend sent %d before failing", rec.Status(), s.status)
@@ -526,7 +529,9 @@ func TestC16_RealServer(t *testing.T) {
 				t.Fatalf("backend closed before responding: client got %d, want 502", status)
 			}
 		default:
-			if rerr == nil && status != 502 {
+			if s.fault == "body-rst" && rerr == nil && resetOvertook(status, body) {
+				vstat.Count("reset_overtook_head", 1)
+			} else if rerr == nil && status != 502 {
 				t.Fatalf("backend aborted after %d of %d bytes but the client's read of the response ended cleanly after %d bytes (status %d): a truncated body was presented as complete\nscript: %s", s.cutAfter, len(s.body), len(body), status, s)
 			}
 		}
@@ -540,6 +545,12 @@ func TestC16_RealServer(t *testing.T) {
 		}
 		record(s, "GET", "real-server")
 	})
+}
+
+// resetOvertook: the response is the proxy's own gateway-error page, which is what a backend
+// reset that destroyed (part of) the unread response head must produce.
+func resetOvertook(status int, body []byte) bool {
+	return (status == http.StatusBadGateway || status == http.StatusInternalServerError) && string(body) == http.StatusText(status)
 }
 
 var (
@@ -564,6 +575,96 @@ func waitEvents(ev *events, n int) []string {
 		}
 		time.Sleep(200 * time.Microsecond)
 	}
+}
+
+// TestC16_Overlapping: many responses relayed at once through ONE forwarder, all held
+// mid-body and then released together: every exchange must complete with the full body and
+// paired notifications (a forwarder-wide resource that blocks would hang some of them).
+func TestC16_Overlapping(t *testing.T) {
+	rapid.Check(t, func(t *rapid.T) {
+		n := rapid.IntRange(17, 40).Draw(t, "concurrent")
+		size := rapid.SampledFrom([]int{2000, 40000, 100000}).Draw(t, "bodySize")
+		be, err := backend()
+		if err != nil {
+			t.Fatalf("%v", err)
+		}
+		body := bytes.Repeat([]byte("o"), size)
+		head := []byte(fmt.Sprintf("HTTP/1.1 200 OK\r\nContent-Length: %d\r\n\r\n", size))
+		be.SetScript(func(*sim.Captured) []sim.Step {
+			return []sim.Step{{Write: append(append([]byte{}, head...), body[:size/2]...)}, {Hold: true}, {Write: body[size/2:]}}
+		})
+		seen := len(be.Requests())
+		tr := &http.Transport{MaxIdleConnsPerHost: 64}
+		defer tr.CloseIdleConnections()
+		fwd := forward.New(false)
+		fwd.Transport = tr
+		ev := &events{}
+		h := forward.NewStateListener(fwd, ev.listener)
+		target, _ := url.Parse("http://" + be.Addr())
+		type res struct {
+			status int
+			n      int
+			p      any
+		}
+		out := make(chan res, n)
+		for i := 0; i < n; i++ {
+			go func() {
+				rec := sim.NewRecorder()
+				req := httptest.NewRequest("GET", "http://front.example/o", nil)
+				req.URL = target
+				var p any
+				func() {
+					defer func() { p = recover() }()
+					h.ServeHTTP(rec, req)
+				}()
+				out <- res{rec.Status(), len(rec.Body()), p}
+			}()
+		}
+		deadline := time.Now().Add(30 * time.Second)
+		for len(be.Requests()) < seen+n {
+			if time.Now().After(deadline) {
+				be.Release()
+				t.Fatalf("INFRA: only %d of %d requests reached the backend", len(be.Requests())-seen, n)
+			}
+			time.Sleep(200 * time.Microsecond)
+		}
+		time.Sleep(2 * time.Millisecond) // let the first halves travel
+		stop := make(chan struct{})
+		defer close(stop)
+		go func() { // a connection may reach its hold point after a release: keep releasing
+			for {
+				be.Release()
+				select {
+				case <-stop:
+					return
+				case <-time.After(2 * time.Millisecond):
+				}
+			}
+		}()
+		for i := 0; i < n; i++ {
+			select {
+			case r := <-out:
+				if r.p != nil || r.status != 200 || r.n != size {
+					t.Fatalf("one of %d overlapping exchanges ended with status %d, %d of %d body bytes, panic %v", n, r.status, r.n, size, r.p)
+				}
+			case <-time.After(30 * time.Second):
+				t.Fatalf("%d responses were relayed at once through one forwarder; after the backend finished all of them only %d exchanges completed within 30 s: the forwarder hangs", n, i)
+			}
+		}
+		evs := ev.take()
+		c, d := 0, 0
+		for _, e := range evs {
+			if strings.HasPrefix(e, "connected") {
+				c++
+			} else {
+				d++
+			}
+		}
+		if c != n || d != n {
+			t.Fatalf("%d exchanges: %d connected, %d disconnected notifications", n, c, d)
+		}
+		vstat.Case(fmt.Sprintf("overlap|%d|%d", n, size), true, []string{"overlapping-responses"}, map[string]any{"concurrent": n, "body": size})
+	})
 }
 
 var _ = sort.Strings
